@@ -136,11 +136,16 @@ ErrorInvocations ==
   { [Base EXCEPT !.bin = b, !.t = "json2yaml", !.nargs = 2] : b \in Bins } \cup
   { [Base EXCEPT !.bin = b, !.t = "bogus", !.nargs = 1] : b \in Bins } \cup
   { [Base EXCEPT !.bin = b, !.f = "bogus", !.p = p] : b \in Bins, p \in BOOLEAN } \cup
-  { [Base EXCEPT !.bin = b, !.in1 = x, !.in2 = y, !.yaml = yy, !.p = p] :
-        b \in Bins, x \in {"ok", "invalid", "missing"}, y \in {"ok", "invalid", "missing"}, yy \in BOOLEAN, p \in BOOLEAN } \cup
+  { [Base EXCEPT !.bin = b, !.in1 = x, !.in2 = y, !.yaml = yy, !.p = p, !.f = f] :
+        b \in Bins, x \in {"ok", "invalid", "missing"}, y \in {"ok", "invalid", "missing"}, yy \in BOOLEAN, p \in BOOLEAN,
+        f \in {"", "patch", "merge"} } \cup
   { [Base EXCEPT !.bin = b, !.p = TRUE, !.in2 = "mismatch", !.f = f, !.pair = pr] : b \in Bins, f \in {"", "patch"}, pr \in {2, 6} } \cup
   { [Base EXCEPT !.bin = b, !.version = TRUE, !.nargs = n] : b \in Bins, n \in {0, 2} } \cup
   { [Base EXCEPT !.bin = b, !.gdd = TRUE, !.nargs = n, !.in1 = x] : b \in Bins, n \in {2, 7}, x \in {"ok", "invalid", "missing"} }
+
+(* a pair of large single-line documents (more than 64 KiB): file and stdin, diff and patch *)
+BigInvocations(BigPair) ==
+  { [Base EXCEPT !.bin = b, !.stdin = s, !.nargs = IF s THEN 1 ELSE 2, !.p = p, !.pair = BigPair] : b \in Bins, s \in BOOLEAN, p \in BOOLEAN }
 
 TransInvocations(Pairs) ==
   { [Base EXCEPT !.bin = b, !.t = t, !.nargs = IF s THEN 0 ELSE 1, !.stdin = s, !.o = o, !.pair = pr] :
